@@ -31,7 +31,8 @@ Section Index.
   Proof.
     induction evs as [|[f k] r IH]; intros p h Hfix Hp; [exact Hp|]. cbn [fold_left].
     destruct (classify_one A fx tincl0 (p, h) (f, k)) as [p' h'] eqn:Ec. apply IH; [exact Hfix|].
-    unfold classify_one in Ec. cbn [fst snd] in Ec. unfold idx_eq in *.
+    unfold classify_one in Ec. cbn [fst snd] in Ec. revert Ec. generalize (eff_kind A fx p (f, k)). clear k. intros k Ec.
+    unfold classify_base in Ec. cbn [fst snd] in Ec. unfold idx_eq in *.
     destruct k.
     - destruct (in_dir A f || fix_outside fx); injection Ec as <- _; cbn [p_index p_files]; rewrite Hp; reflexivity.
     - injection Ec as <- _. exact Hp.
